@@ -171,6 +171,19 @@ def case_only_cases():
     return out
 
 
+def pointer_extern_cases():
+    """externs whose C++ type is a pointer (to const, to non-const), as parameters in every direction on MTS and STS ports"""
+    itf = ['itf', ['IDev'], [['enum', ['Result'], ['Ok', 'No']]],
+           [['Poke', 'in', ['Result'], [['name', ['PStr'], 'in'], ['inc', ['PInc'], 'inout'], ['got', ['PStr'], 'out']]],
+            ['Level', 'out', ['void'], [['name', ['PStr'], 'in'], ['inc', ['PInc'], 'in']]]]]
+    file = [['extern', ['PStr'], 'const char*'], ['extern', ['PInc'], '::Incident*'],
+            ['ns', ['My'], [itf, ['comp', ['Box'], [['ctl', ['IDev'], 'provides', False], ['dev', ['IDev'], 'requires', False], ['dev2', ['IDev'], 'requires', False]]]]]]
+    out = []
+    for pc in ({'p': [['w', 'none'], ['w', 'all']], 'r': [['w', 'none'], ['w', 'all']]}, {'p': [['w', 'all'], ['w', 'none']], 'r': [['s', ['dev2']], ['s', ['dev']]]}):
+        out.append({'file': file, 'cfg': {'file': 'Box.dzn', 'enc': ['My', 'Box'], 'fac': 'create', 'ports': pc}})
+    return out
+
+
 def tie_and_plans(cases):
     """(impl outcomes, model outcomes, plans); a case is 'tied' when the implementation's files equal the model's byte for byte.
     Every case is preceded, in the same interpreter, by a build of its sibling."""
